@@ -30,6 +30,25 @@ def mutants(e):
             yield ''.join(toks[:i] + [p] + toks[i + 1:])
 
 
+# code points that Rust's char::is_numeric / is_alphabetic / is_alphanumeric / is_whitespace / to_lowercase treat like their ASCII
+# cousins (a lexer written with them accepts what the XPath grammar does not), plus invisible and boundary ones
+UNI = ['\u00b2', '\u0663', '\u00bd', '\uff11', '\u2460', '\u2167', '\u00a0', '\u2003', '\u2028', '\u3000', '\u0085', '\u01c5', '\u00aa', '\u0301', '\ufeff', '\u200b',
+       '\U0001d7d9', '\U0001d4b3', '\u00df', '\u0130', '\u00ad', '\u007f', '\uff0e', '\uff0f', '\uff08', '\u2215', '\u02d0']
+
+
+def unicode_mutants(e):
+    toks = TOKEN.findall(e)
+    n = len(toks)
+    for i in range(n + 1):
+        for c in UNI:
+            yield ''.join(toks[:i] + [c] + toks[i:])
+    for i in range(n):
+        if toks[i][0].isdigit():
+            for c in UNI:
+                yield ''.join(toks[:i] + [c] + toks[i + 1:])
+                yield ''.join(toks[:i] + [toks[i][:1] + c + toks[i][1:]] + toks[i + 1:])
+
+
 def main():
     seeds = []
     for di in sorted(G.CURATED):
@@ -38,6 +57,13 @@ def main():
     seen, out = set(), []
     for s in seeds:
         for m in mutants(s):
+            if m not in seen and '\n' not in m and len(m) < 300:
+                seen.add(m)
+                out.append(m)
+    useeds = ['1', '1.5', '.5', '2 + 3', '//a[1]', '//a[position() = 2]', 'count(//a) + 1', 'substring("abc", 2, 1)', "concat('a', 1)", '/r/a[2]/@x', '-1', '1 div 0', 'p:a', 'a and b',
+              'child::a', '@x', '$v', 'a | b', 'lang("en")', 'translate("a1", "1", "2")', 'string-length()', '1 = 1', '(1)', '//*[. = 1]', 'a[1][2]', 'number("1")', 'round(1.5)']
+    for u in useeds + seeds[::40]:
+        for m in unicode_mutants(u):
             if m not in seen and '\n' not in m and len(m) < 300:
                 seen.add(m)
                 out.append(m)
